@@ -220,6 +220,32 @@ def small_core(r, seed, tier, model_ok):
     r.slice("small_core", len(cases), len({c["text"] for c in cases if len(c["text"].split()) >= 3}), [cases[len(cases) // 2]["text"], cases[-1]["text"]], dict(outcomes=dict(dist), node_budget=budget, exhaustive=exhaustive),
             f"every closed core program of <= {budget} nodes over literals {lits} (bounded-exhaustive{'' if exhaustive else ', sampled'}); distinct = texts of >= 3 words", bad)
 
+def reference_ranges(r, seed, tier, model_ok):
+    """function and argument references with EVERY nesting index from well below -depth to well above depth - 1, at depths 1..5: an index outside
+    -depth .. depth-1 is the out-of-range error (Scope.reference_out_of_range), never another enclosing function; in range, which function / whose
+    argument it is follows from the index alone (the expected value is computed here), also through a computed argument position"""
+    cases = []; want = []
+    def nest(d, body):
+        t = body
+        for i in range(d): t = f"{E(10 * (i + 1))} ({t} ㅎ) ㅎㄴ"          # level i (0 = innermost) is called with the argument 10 * (i + 1)
+        return t
+    for d in range(1, 6):
+        for m in range(-2 * d - 3, d + 4):
+            inr = -d <= m < d; lvl = m if m >= 0 else m + d          # which enclosing function (0 = innermost) the index names
+            cmp_ = " ".join(f"({E(m)} ㅇ) ({E(j)} ㅇ) ㄴㅎㄷ" for j in range(d)) + f" ㅁㄹㅎ{E(d)}"
+            cases.append(dict(text=nest(d, cmp_))); want.append("V [" + ", ".join(str(j == lvl) for j in range(d)) + "]" if inr else "E 5,-5")
+            cases.append(dict(text=nest(d, f"ㄱㅇ{E(m)}"))); want.append(f"V {10 * (lvl + 1)}" if inr else "E 5,-5")
+            cases.append(dict(text=nest(d, f"(ㄱ ㄱ ㄷㅎㄷ)ㅇ{E(m)}"))); want.append(f"V {10 * (lvl + 1)}" if inr else "E 5,-5")
+            cases.append(dict(text=nest(d, f"(ㄱㅇ{E(m)}) ((ㄱ ㄴㄱ ㄱㅎㄷ) ㅎ) ㅅㄷㅎㄷ"))); want.append(f"V {10 * (lvl + 1)}" if inr else "V 0")          # the failure is an ordinary exception
+    a = impl_run(cases)
+    bad0 = [dict(program=c["text"], impl=vlib.decode_v(o.split("\t")[0]).split(" @")[0][:120], model=w + " (the nesting index alone decides)", which=["reference-range"])
+            for c, o, w in zip(cases, a, want) if vlib.decode_v(o.split("\t")[0]).split(" @")[0] != w]
+    r.slice("reference_ranges_oracle", len(cases), len({c["text"] for c in cases}), [cases[0]["text"], cases[-1]["text"]], dict(depths="1..5"),
+            "function / argument references (static and computed position) with every nesting index -2d-3 .. d+3 at depths 1..5: out of range = the error, in range = the function / argument the index names", bad0[:40])
+    if model_ok:
+        b = model_run(cases); dist, bad = compare(cases, a, b)
+        r.slice("reference_ranges_vs_model", len(cases), len({c["text"] for c in cases}), [cases[1]["text"]], dict(outcomes=dict(dist)), "the same programs: result and complete event trace vs the model", bad)
+
 def closure_factories(r, seed, tier, model_ok):
     """functions that return functions, 2-4 levels deep, levels of arity 0 / 1 / 2 in every arrangement (a ZERO-argument level in the middle
     included); the innermost body lists arguments of every level.  ONE factory value is applied several times with DIFFERENT arguments per level -
